@@ -68,6 +68,8 @@ impl PS {
 pub struct PlaybackModel {
 	pub state: PS,
 	pub fade: ParamModel<Decibels>,
+	/// a track has no Stopped state: a resume scheduled on a clock that no longer exists leaves it Paused
+	pub is_track: bool,
 }
 
 impl PlaybackModel {
@@ -75,6 +77,13 @@ impl PlaybackModel {
 		Self {
 			state: PS::Playing,
 			fade: ParamModel::new(Decibels::IDENTITY),
+			is_track: false,
+		}
+	}
+	pub fn new_track() -> Self {
+		Self {
+			is_track: true,
+			..Self::new()
 		}
 	}
 	pub fn pause(&mut self, dur: f64, easing: Easing) {
@@ -117,7 +126,7 @@ impl PlaybackModel {
 			PS::Waiting { start, dur, easing } => {
 				let never = start.update(dt, clock);
 				if never {
-					self.state = PS::Stopped;
+					self.state = if self.is_track { PS::Paused } else { PS::Stopped };
 				} else if *start == StartM::Imm {
 					let (d, e) = (*dur, *easing);
 					self.resume(StartM::Imm, d, e);
